@@ -132,6 +132,12 @@ claim("C18", "fault enumeration: scripted scenarios x every backend call x error
       "nothing that was accepted once is accepted again.",
       TRUST + " One fault per request; faults in the client-state stores are not injected (the statement lists storage, hasher, renderer and SMS sender).", level="fault_enumeration", engine="fault-enumerator")
 
+claim("C20", "concurrent stress under the Go race detector with rapid-generated client scripts and seed-driven schedule perturbation; solo-vs-concurrent transcript differential",
+      "One initialised instance with the shipped router, body reader, responder, redirector, error handler, logger and LogMailer / SMTPMailer (against a loopback SMTP server), library mail goroutines on or off. 2-8 clients with their own browser and account "
+      "run generated scripts (login ok/bad, register+confirm, recover, OTP add/login, remember visit, logout, protected visits) concurrently; schedules are perturbed by seed-driven yields/sleeps injected in harness callbacks that library code calls "
+      "(storage, client state, mailer, logger) and by GOMAXPROCS 2/4/16. Oracle: (1) the race detector (test binary built with -race, halt on first report; the case in flight is the replay) and (2) each client's transcript equals the one of the same script run alone in a fresh world.",
+      TRUST + " Interleavings are sampled, not enumerated: cross-talk that needs one specific interleaving may be missed (DESIGN.md §6).", engine="concurrent-stress")
+
 NOT_YET = "check not built yet in this round (claimed in DESIGN.md; will be claimed once its check is committed)"
 
 def main():
@@ -172,6 +178,7 @@ def main():
             {"name": "paired-differential", "path": "/verif/props/c16_test.go", "kind_free_text": "two worlds from one description, transcript equality", "serves_properties": ["C16"]},
             {"name": "register+rules", "path": "/verif/props/c19_test.go", "kind_free_text": "rules PBT against a reference evaluator; registration requests against a user-table diff", "serves_properties": ["C19"]},
             {"name": "fault-enumerator", "path": "/verif/props/c18_test.go", "kind_free_text": "scripted scenarios x backend call index x error kind x error handler; random histories with injected faults", "serves_properties": ["C18"]},
+            {"name": "concurrent-stress", "path": "/verif/props/c20_test.go", "kind_free_text": "K concurrent clients against one instance under -race; solo re-run differential", "serves_properties": ["C20"]},
             {"name": "handler-program", "path": "/verif/props/c11_test.go", "kind_free_text": "rapid-generated handler programs against recording stores", "serves_properties": ["C11"]},
         ],
         "checks": checks,
